@@ -144,6 +144,8 @@ func runC09(c *Ctx, r *Report) {
 	r.Rule("C09/session-id-range", "the session-id conversion accepts the whole unsigned 32-bit range", 1)
 	r.Rule("C09/deadline-resolved", "every deadline the NETCONF driver sets up takes its duration from Channel.GetTimeout (a configured 0 means the maximum, for the hello exchange as for every RPC)", 2)
 	checkNetconfDeadlinesResolved(c, r, "C09/deadline-resolved")
+	r.Rule("C09/submatch-guarded", "the session-id (and every other sub-match the NETCONF driver reads out of the server's text) is indexed only after the pattern was seen to match", 2)
+	checkSubmatchGuarded(c, r, "C09/submatch-guarded", []string{"driver/netconf"})
 	r.Rule("C09/hello-required", "a server greeting without <hello> yields ErrNetconfError", 1)
 	r.Rule("C09/framing-follows-selection", "serialize and the response object are given the selected version", 2)
 
